@@ -192,12 +192,14 @@ func mapFams(m *types.Map, out map[string]Sort) {
 	out[famMap("MD", m)] = Sort("(Array Int (Array " + string(ks) + " Bool))")
 	out[famMap("ML", m)] = arrSort(SInt)
 	pre := famMap("MV", m)
-	for i, suf := range compSuffixes(m.Elem()) {
+	fs := flatSorts(m.Elem())
+	for i, suf := range mapCompSuffixes(m.Elem()) {
 		so := SInt
 		if kindOf(m.Elem()) == kScalar {
 			so = scalarSort(m.Elem())
+		} else if kindOf(m.Elem()) == kStruct && flatScalarStruct(m.Elem()) {
+			so = fs[i]
 		}
-		_ = i
 		out[pre+suf] = Sort("(Array Int (Array " + string(ks) + " " + string(so) + "))")
 	}
 }
@@ -645,6 +647,14 @@ func (w *World) computeModsImpl(withOverrides bool) *ModInfo {
 					}
 				} else if w.Contracts != nil && w.Contracts.ByFunc[cal] != nil && (w.Contracts.ByFunc[cal].Pure || w.Contracts.ByFunc[cal].AssignsNothing) && (withOverrides || !w.InModule(cal)) {
 					// stubbed as pure
+				} else if con := w.stubAssigns(cal); con != nil {
+					// library function with a stub contract that names its frame: `assigns F#<struct>#<field> ...`
+					for fam, so := range con {
+						if ms.add(fam, so) {
+							changed = true
+						}
+						ms.markNonFresh(fam)
+					}
 				} else if len(cal.Blocks) == 0 && w.InModule(cal) {
 					// no body in module (should not happen)
 				} else if !w.InModule(cal) {
@@ -694,6 +704,9 @@ func (w *World) computeModsImpl(withOverrides bool) *ModInfo {
 			own := mi.ownMods(f)
 			_ = ms
 			for fam := range own.Fams {
+				if !own.NonFresh[fam] {
+					continue // initialising an object the function has just allocated is not a mutation
+				}
 				for imm := range w.Contracts.Immutable {
 					if famIsUnder(fam, imm) {
 						w.ImmutableViolations = append(w.ImmutableViolations, FuncKey(f)+" writes "+fam)
@@ -890,4 +903,42 @@ func (mi *ModInfo) unionFiltered(ms, cm *ModSet, caller, callee *ssa.Function) b
 		}
 	}
 	return ms.union(filtered)
+}
+
+// stubAssigns: the families named by the explicit frame of a library stub (nil when there is none).
+func (w *World) stubAssigns(cal *ssa.Function) map[string]Sort {
+	if w.Contracts == nil || w.InModule(cal) {
+		return nil
+	}
+	con := w.Contracts.ByFunc[cal]
+	if con == nil || len(con.Assigns) == 0 {
+		return nil
+	}
+	out := map[string]Sort{}
+	for _, a := range con.Assigns {
+		// F#<struct type>#<field>
+		parts := strings.Split(a, "#")
+		if len(parts) != 3 || parts[0] != "F" {
+			panic(unsupported("stub %s: assigns wants F#<struct>#<field>, got %q", FuncKey(cal), a))
+		}
+		t, err := w.resolveType(parts[1], nil)
+		if err != nil {
+			panic(unsupported("stub %s: %v", FuncKey(cal), err))
+		}
+		st, ok := under(t).(*types.Struct)
+		if !ok {
+			panic(unsupported("stub %s: %s is not a struct", FuncKey(cal), parts[1]))
+		}
+		found := false
+		for i := 0; i < st.NumFields(); i++ {
+			if st.Field(i).Name() == parts[2] {
+				storeFams(st.Field(i).Type(), famField(structKey(t), parts[2]), out, false)
+				found = true
+			}
+		}
+		if !found {
+			panic(unsupported("stub %s: no field %s in %s", FuncKey(cal), parts[2], parts[1]))
+		}
+	}
+	return out
 }
